@@ -57,7 +57,8 @@ func (c04) Cases(tier string, seed uint64) []fw.Case {
 				outside = true
 			}
 		}
-		if outside || strings.Contains(corpus[k], "time.sleep") {
+		// (and a program that prints the wall clock may differ between two runs whatever runs it)
+		if outside || strings.Contains(corpus[k], "time.sleep") || strings.Contains(corpus[k], "time.now") {
 			continue
 		}
 		src := map[string]string{"main": corpus[k]}
